@@ -1,3 +1,59 @@
-(* C14 placeholder until the proofs are in *)
-From EC Require Import Base.Prelude Sii.Range Sii.Parse.
-Theorem c14_placeholder : True. Proof. exact I. Qed.
+(* C14 -- writing a station alias changes the alias and its checksum, nothing else. *)
+From EC Require Import Base.Prelude Base.Bytes Sii.Range Sii.RangeProofs Sii.Parse Sii.ParseProofs.
+Local Open Scope N_scope.
+
+(* For ANY EEPROM contents and any alias: set_station_alias succeeds and stores exactly two
+   words - word 4 = the alias, word 7 = the CRC-8 (polynomial 0x07, initial value 0xFF, crc8
+   defined bit by bit in Sii/Parse.v) of the first fourteen bytes with the new alias in place. *)
+Theorem c14_alias_writes : forall p a, prov_ok p ->
+  exists p', set_station_alias p a = Ok p' /\
+    wrote p p' (words_of 4 (le_bytes 2 a) ++ words_of 7 (le_bytes 2 (crc8 (new_header p a)))).
+Proof. exact alias_spec. Qed.
+Print Assumptions c14_alias_writes.
+
+(* Read back afterwards: bytes 8,9 hold the alias, byte 14 the checksum of the first fourteen
+   bytes AS THEY READ AFTER THE CHANGE, every other byte keeps its value. *)
+Theorem c14_alias_effect : forall p a p', prov_ok p -> set_station_alias p a = Ok p' ->
+  let cs := crc8 (new_header p a) in
+  byte_at p' 8 = a mod 256 /\ byte_at p' 9 = a / 256 mod 256 /\
+  byte_at p' 14 = cs mod 256 /\ byte_at p' 15 = cs / 256 mod 256 /\
+  (forall x, x <> 8 -> x <> 9 -> x <> 14 -> x <> 15 -> byte_at p' x = byte_at p x) /\
+  bytes_from p' 0 14 = new_header p a.
+Proof. exact alias_effect. Qed.
+Print Assumptions c14_alias_effect.
+
+Theorem c14_alias_reads_back : forall p a p', prov_ok p -> a < 65536 -> set_station_alias p a = Ok p' ->
+  q_station_alias p' = Ok [Z.of_N a].
+Proof. exact alias_reads_back. Qed.
+Print Assumptions c14_alias_reads_back.
+
+(* A generic write of a payload that fits its range (eeprom_write_dangerously always makes the
+   range ceil(len/2) words): exactly the given bytes from the given word on, an odd trailing byte
+   padded with zero; no panic. *)
+Theorem c14_write_all : forall p w lw payload,
+  (length payload <= 2 * lw)%nat -> w + N.of_nat lw <= 65536 ->
+  exists p' r', range_write_all p (range_new w (N.of_nat lw)) payload = Ok (p', r') /\
+                wrote p p' (words_of w payload).
+Proof. exact write_all_fits. Qed.
+Print Assumptions c14_write_all.
+
+(* ANY write on a word-aligned range: it never reports more than it was given and never stores
+   outside the range. *)
+Theorem c14_write_within : forall p w room buf,
+  match range_write p {| r_pos := 2 * w; r_end := 2 * w + 2 * N.of_nat room |} buf with
+  | Ok (n, p', r') =>
+    (n <= length buf)%nat /\
+    exists ws, wrote p p' ws /\ Forall (fun kv => 2 * w <= fst kv < 2 * w + 2 * N.of_nat room) ws
+  | Err e => e = SOverrun
+  | Panic _ | Hang => False
+  end.
+Proof. exact range_write_within. Qed.
+Print Assumptions c14_write_within.
+
+(* The device-level retry rule: a word is written at most 21 times; it is stored iff the device
+   reported at most 20 command errors. *)
+Theorem c14_retry_bound : forall errs,
+  let '(stored, cmds, errs_left) := dev_write_word errs in
+  (cmds <= 21)%nat /\ (stored = true <-> (errs <= 20)%nat) /\ (stored = true -> cmds = S errs).
+Proof. exact dev_write_word_bound. Qed.
+Print Assumptions c14_retry_bound.
